@@ -51,9 +51,13 @@ enum Live {
 }
 
 struct World {
+	/// `Server::start` on a loopback listener (the real accept loop and its per-connection hyper set-up) instead of the
+	/// tower service on in-process pipes; the peers' pipes are bridged to TCP connections
+	server: Option<(std::net::SocketAddr, jsonrpsee_server::ServerHandle)>,
 	/// WebSocket pings enabled (cases that end a session by going silent)
 	use_ping: bool,
 	rig: Rig,
+	limit: u32,
 	ctx: Arc<Ctx>,
 	started_rx: mpsc::UnboundedReceiver<u64>,
 	live: HashMap<u64, Live>,
@@ -61,13 +65,31 @@ struct World {
 }
 
 impl World {
-	fn new(limit: u32, use_ping: bool) -> World {
+	async fn new(limit: u32, use_ping: bool, server_mode: bool) -> World {
 		let ctx = Arc::new(Ctx::default());
 		let (stx, started_rx) = mpsc::unbounded_channel();
 		*ctx.started.lock() = Some(stx);
 		let methods: jsonrpsee_server::Methods = module(ctx.clone()).into();
-		let rig = Rig::with_methods(RigCfg { max_conns: limit, ping_ms: if use_ping { Some((100, 300)) } else { None }, ..Default::default() }, Default::default(), methods);
-		World { use_ping, rig, ctx, started_rx, live: HashMap::new(), serial: 0 }
+		let cfg = RigCfg { max_conns: limit, ping_ms: if use_ping { Some((100, 300)) } else { None }, ..Default::default() };
+		let server = if server_mode {
+			let server = jsonrpsee_server::Server::builder().set_config(cfg.server_config()).build("127.0.0.1:0").await.expect("bind loopback");
+			let addr = server.local_addr().unwrap();
+			Some((addr, server.start(methods.clone())))
+		} else {
+			None
+		};
+		let rig = Rig::with_methods(cfg, Default::default(), methods);
+		World { server, use_ping, rig, limit, ctx, started_rx, live: HashMap::new(), serial: 0 }
+	}
+
+	/// one HTTP exchange with its own connection (`Connection: close`) against the listener
+	async fn tcp_http(addr: std::net::SocketAddr, head: &str, body: &str) -> u16 {
+		let Ok(mut s) = tokio::net::TcpStream::connect(addr).await else { return 0 };
+		let req = format!("{head}\r\nHost: localhost\r\nConnection: close\r\nContent-Length: {}\r\n\r\n{}", body.len(), body);
+		let _ = s.write_all(req.as_bytes()).await;
+		let mut buf = vec![];
+		let _ = tokio::time::timeout(WAIT, s.read_to_end(&mut buf)).await;
+		String::from_utf8_lossy(&buf).split_whitespace().nth(1).and_then(|c| c.parse().ok()).unwrap_or(0)
 	}
 
 	async fn free(&self) -> Option<usize> {
@@ -75,6 +97,13 @@ impl World {
 	}
 
 	async fn step(&mut self, op: &Value, kinds: &[String]) -> String {
+		if self.server.is_some() && self.ctx.guard.lock().is_some() {
+			// On the listener path the slot belongs to the TCP connection and comes back when the server has noticed that the
+			// connection is over - a moment after the peer's side of the step.  The serialised driver waits for that moment
+			// (bounded): every connection it has ended must have freed its slot before the next step is judged.
+			let limit = self.limit as usize;
+			let _ = self.wait_free(limit.saturating_sub(self.live.len())).await;
+		}
 		let c = op["c"].as_u64().unwrap();
 		let kind = kinds[c as usize - 1].as_str();
 		match op["o"].as_str().unwrap() {
@@ -84,12 +113,16 @@ impl World {
 				let (gtx, grx) = oneshot::channel();
 				self.ctx.gates.lock().insert(tag, grx);
 				let (mut client, server) = tokio::io::duplex(1 << 16);
-				let (stop, _handle) = jsonrpsee_server::stop_channel();
-				let svc = self.rig.svc(stop.clone());
-				let conn = tokio::spawn(async move {
-					let _ = jsonrpsee_server::serve_with_graceful_shutdown(server, svc, stop.shutdown()).await;
-					drop(_handle);
-				});
+				let conn = if let Some((addr, _)) = &self.server {
+					tokio::spawn(bridge(server, *addr))
+				} else {
+					let (stop, _handle) = jsonrpsee_server::stop_channel();
+					let svc = self.rig.svc(stop.clone());
+					tokio::spawn(async move {
+						let _ = jsonrpsee_server::serve_with_graceful_shutdown(server, svc, stop.shutdown()).await;
+						drop(_handle);
+					})
+				};
 				let body = format!(r#"{{"jsonrpc":"2.0","id":1,"method":"gated","params":[{tag}]}}"#);
 				let req = format!("POST / HTTP/1.1\r\nHost: localhost\r\nContent-Type: application/json\r\nContent-Length: {}\r\n\r\n{}", body.len(), body);
 				let _ = client.write_all(req.as_bytes()).await;
@@ -110,10 +143,15 @@ impl World {
 				}
 			}
 			"open" => {
-				let (stop, handle) = jsonrpsee_server::stop_channel();
-				let mut svc = self.rig.svc(stop.clone());
-				let closed: std::pin::Pin<Box<dyn std::future::Future<Output = ()> + Send + Sync>> = Box::pin(svc.on_session_closed());
-				match WsPeer::connect(svc, stop, handle, &[]).await {
+				let (closed, connected): (std::pin::Pin<Box<dyn std::future::Future<Output = ()> + Send + Sync>>, _) = if let Some((addr, _)) = &self.server {
+					// no per-session hook on this path: the free-slot read after the step waits for the slot instead
+					(Box::pin(async {}), WsPeer::connect_tcp(*addr, &[]).await)
+				} else {
+					let (stop, handle) = jsonrpsee_server::stop_channel();
+					let mut svc = self.rig.svc(stop.clone());
+					(Box::pin(svc.on_session_closed()), WsPeer::connect(svc, stop, handle, &[]).await)
+				};
+				match connected {
 					Ok(mut peer) => {
 						let mut reader = None;
 						if self.use_ping {
@@ -143,11 +181,15 @@ impl World {
 			}
 			"upgradeFail" => {
 				// an upgrade request without Sec-WebSocket-Key: the handshake fails after the guard was consulted
-				let r = self
-					.rig
-					.http("GET", &[("connection".into(), "upgrade".into()), ("upgrade".into(), "websocket".into()), ("sec-websocket-version".into(), "13".into())], vec![])
-					.await;
-				if r.status == 429 { "429".into() } else { "failed".into() }
+				let status = if let Some((addr, _)) = &self.server {
+					Self::tcp_http(*addr, "GET / HTTP/1.1\r\nUpgrade: websocket\r\nSec-WebSocket-Version: 13", "").await
+				} else {
+					self.rig
+						.http("GET", &[("connection".into(), "upgrade".into()), ("upgrade".into(), "websocket".into()), ("sec-websocket-version".into(), "13".into())], vec![])
+						.await
+						.status
+				};
+				if status == 429 { "429".into() } else { "failed".into() }
 			}
 			"finish" => {
 				let how = op["how"].as_str().unwrap();
@@ -161,8 +203,10 @@ impl World {
 								o => format!("bad-response:{:?}", o.map(|r| r.map(|n| String::from_utf8_lossy(&buf[..n.min(40)]).into_owned()))),
 							}
 						} else {
-							drop(io); // the peer resets the connection while the call is executing
-							drop(gate);
+							// the peer goes away while the call is executing - and the handler is one that would not return by
+							// itself (its gate is never opened): the slot must come back because the connection is gone
+							drop(io);
+							std::mem::forget(gate);
 							"ok".into()
 						}
 					}
@@ -196,7 +240,13 @@ impl World {
 								let _ = tokio::time::timeout(WAIT, closed).await;
 							}
 							_ => {
-								drop(peer); // abrupt: both halves of the client's IO vanish without a close frame
+								// abrupt: both halves of the client's IO vanish without a close frame (the pong-answering reader
+								// task owns the receiving half: it goes too)
+								if let Some(r) = reader {
+									r.abort();
+									let _ = r.await;
+								}
+								drop(peer);
 								let _ = tokio::time::timeout(WAIT, closed).await;
 							}
 						}
@@ -232,7 +282,7 @@ pub fn replay(cases: &[Value], out: &mut Out) {
 			handles.push(tokio::spawn(async move {
 				let mut v = vec![];
 				for (i, c) in chunk {
-					v.push((i, one_case(&c, cycles).await));
+					v.push((i, one_case(&c, cycles, i).await));
 				}
 				v
 			}));
@@ -245,17 +295,25 @@ pub fn replay(cases: &[Value], out: &mut Out) {
 	});
 }
 
-async fn one_case(c: &Value, cycles: usize) -> Vec<(String, Value)> {
+async fn one_case(c: &Value, cycles: usize, idx: usize) -> Vec<(String, Value)> {
 	let limit = c["limit"].as_u64().unwrap() as u32;
 	let kinds: Vec<String> = c["kinds"].as_array().unwrap().iter().map(|k| k.as_str().unwrap().to_string()).collect();
 	let use_ping = c["path"].as_array().unwrap().iter().any(|s| s["op"].get("how").map(|h| h == "inactive").unwrap_or(false));
-	let mut w = World::new(limit, use_ping);
+	// every third case goes through `Server::start` on a loopback listener (the server-side close of one session is only
+	// available on the tower path: those cases stay there)
+	let has_server_close = c["path"].as_array().unwrap().iter().any(|s| s["op"].get("how").map(|h| h == "serverClose").unwrap_or(false));
+	let server_mode = idx % 3 == 2 && !has_server_close;
+	let mut w = World::new(limit, use_ping, server_mode).await;
 	let mut probs = vec![];
 	if limit > 0 {
 		// warm-up: a handler takes a clone of the guard out of the request extensions
-		let r = w.rig.http_json(br#"{"jsonrpc":"2.0","id":0,"method":"grab_guard"}"#).await;
-		if r.status != 200 || w.ctx.guard.lock().is_none() {
-			probs.push(("guard-not-in-extensions".to_string(), json!({"status": r.status})));
+		let status = if let Some((addr, _)) = &w.server {
+			World::tcp_http(*addr, "POST / HTTP/1.1\r\nContent-Type: application/json", r#"{"jsonrpc":"2.0","id":0,"method":"grab_guard"}"#).await
+		} else {
+			w.rig.http_json(br#"{"jsonrpc":"2.0","id":0,"method":"grab_guard"}"#).await.status
+		};
+		if status != 200 || w.ctx.guard.lock().is_none() {
+			probs.push(("guard-not-in-extensions".to_string(), json!({"status": status, "server_mode": server_mode})));
 			return probs;
 		}
 	}
@@ -287,7 +345,13 @@ async fn one_case(c: &Value, cycles: usize) -> Vec<(String, Value)> {
 		// end every connection still in service so that the next cycle starts from a full guard
 		let open: Vec<u64> = w.live.keys().cloned().collect();
 		for cn in open {
-			let how = if kinds[cn as usize - 1] == "http" { "respond" } else { ["clientClose", "reset", "serverClose"][(cycle + cn as usize) % 3] };
+			let how = if kinds[cn as usize - 1] == "http" {
+				"respond"
+			} else if w.server.is_some() {
+				["clientClose", "reset"][(cycle + cn as usize) % 2]
+			} else {
+				["clientClose", "reset", "serverClose"][(cycle + cn as usize) % 3]
+			};
 			let _ = w.step(&json!({"o": "finish", "c": cn, "how": how}), &kinds).await;
 		}
 		if limit > 0 {
